@@ -112,7 +112,7 @@ def merge_values(c, a, b, what=''):
             if 'a' in (a.sort, b.sort): raise Unsupported('merge of array and scalar for ' + what)
             a = ir.as_int(a); b = ir.as_int(b)
         return ir.ite(c, a, b)
-    if a is UNBOUND or b is UNBOUND:
+    if a is UNBOUND or b is UNBOUND or isinstance(a, MaybeUnbound) or isinstance(b, MaybeUnbound):
         return MaybeUnbound(c, a, b)
     raise Unsupported('cannot merge %r and %r for %s' % (a, b, what))
 
